@@ -57,6 +57,11 @@ RENDERINGS = [
     ("'k', '--flag', 'v'", "'%(k)s', '--flag', '%(v)s'", 'dict3'),
     ('k --flag v', '%(k)s --flag %(v)s', 'nonspace'),
     ('k -f v', '%(k)s -f %(v)s', 'nonspace'),
+    # flag names as they occur: with an underscore, upper case, a single letter pair
+    ('k --new_value v', '%(k)s --new_value %(v)s', 'nonspace'),
+    ('k -n_v v', '%(k)s -n_v %(v)s', 'nonspace'),
+    ("'k', '--new_value', 'v'", "'%(k)s', '--new_value', '%(v)s'", 'dict3'),
+    ('k --Flag_X v', '%(k)s --Flag_X %(v)s', 'nonspace'),
 ]
 
 ASCII = [chr(c) for c in range(33, 127)]
